@@ -14,9 +14,10 @@ t_win == <<119,105,110,100,111,119,115>> t_lin == <<108,105,110,117,120>> t_c ==
 t_tag == <<97,116,116,97,99,107,46,116,49,48,48,48>> t_tagx == <<97,116,116,97,99,107,46,120>>
 t_foo == <<102,111,111>> t_bar == <<98,97,114>> t_zz == <<122,122>>
 
-RC(t, s) == [t |-> t, s |-> s, cat |-> <<>>, prod |-> <<>>, svc |-> <<>>, k |-> <<>>, v |-> <<>>]
+RC(t, s) == [t |-> t, s |-> s, cat |-> <<>>, prod |-> <<>>, svc |-> <<>>, k |-> <<>>, v |-> <<>>, op |-> "eq", num |-> FALSE, n |-> 0]
 LS(prod) == [RC("logsource", <<>>) EXCEPT !.prod = prod]
 ST(k, v) == [RC("state", <<>>) EXCEPT !.k = k, !.v = v]
+STN(op, n) == [RC("state", <<>>) EXCEPT !.k = <<110>>, !.op = op, !.num = TRUE, !.n = n]
 AT(name, op, v) == [RC("attr", op) EXCEPT !.k = name, !.v = v]
 CI(f, v) == [RC("contains_item", <<>>) EXCEPT !.k = f, !.v = v]
 a_score == <<115,101,118,101,114,105,116,121,95,115,99,111,114,101>>   \* severity_score (custom attribute, integer 5)
@@ -31,29 +32,41 @@ RulePool == AttrPool \o <<LS(t_win), LS(t_lin), RC("contains_field", fB), RC("co
               RC("is_sigma_correlation_rule", <<>>), RC("tag", t_tag), RC("tag", t_tagx), RC("applied", t_ren),
               RC("applied", t_nope), RC("applied", <<112,114,101>>), ST(t_k, t_v), ST(t_k, t_w),
               \* the state variable z holds the empty string
-              ST(<<122>>, <<>>), ST(<<122>>, t_v), RC("applied", <<115,116,48>>)>>
-IC(t, all, s) == [t |-> t, all |-> all, s |-> s, k |-> <<>>, v |-> <<>>]
+              ST(<<122>>, <<>>), ST(<<122>>, t_v), RC("applied", <<115,116,48>>),
+              \* the state variable n holds the number 5: order operators, number against text
+              STN("gte", 5), STN("gt", 5), STN("lt", 6), STN("lte", 4), STN("ne", 5), STN("ne", 6), STN("eq", 5),
+              [ST(<<110>>, <<53>>) EXCEPT !.op = "eq"],                         \* n eq "5" (a text)
+              [ST(t_k, <<117>>) EXCEPT !.op = "gte"], [ST(t_k, t_v) EXCEPT !.op = "lt"], [ST(t_k, t_w) EXCEPT !.op = "lte"],     \* texts by code points
+              [STN("gte", 5) EXCEPT !.k = t_k], [ST(<<110>>, <<97>>) EXCEPT !.op = "lt"]>>      \* a text against a number
+IC(t, all, s) == [t |-> t, all |-> all, s |-> s, k |-> <<>>, v |-> <<>>, op |-> "eq", num |-> FALSE, n |-> 0]
 ItemPool == <<IC("match_string", FALSE, t_foo), IC("match_string", TRUE, t_foo), IC("match_value", FALSE, t_bar),
               IC("match_value", TRUE, t_zz), IC("contains_wildcard", FALSE, <<>>), IC("contains_wildcard", TRUE, <<>>),
               IC("is_null", FALSE, <<>>), IC("is_null", TRUE, <<>>), IC("applied", FALSE, t_ren), IC("applied", FALSE, <<112,114,101>>), IC("applied", FALSE, <<111,110,108,121,49>>),
               [IC("state", FALSE, <<>>) EXCEPT !.k = t_k, !.v = t_v], [IC("state", FALSE, <<>>) EXCEPT !.k = t_k, !.v = t_w],
-              [IC("state", FALSE, <<>>) EXCEPT !.k = <<122>>, !.v = <<>>]>>
-FC(t, names, s) == [t |-> t, names |-> names, s |-> s, k |-> <<>>, v |-> <<>>]
+              [IC("state", FALSE, <<>>) EXCEPT !.k = <<122>>, !.v = <<>>],
+              [IC("state", FALSE, <<>>) EXCEPT !.k = <<110>>, !.op = "gt", !.num = TRUE, !.n = 4],
+              [IC("state", FALSE, <<>>) EXCEPT !.k = t_k, !.op = "gt", !.num = TRUE, !.n = 4]>>
+FC(t, names, s) == [t |-> t, names |-> names, s |-> s, k |-> <<>>, v |-> <<>>, op |-> "eq", num |-> FALSE, n |-> 0]
 FieldPool == <<FC("include", <<fH>>, <<>>), FC("exclude", <<fG>>, <<>>), FC("include", <<fB>>, <<>>), FC("include", <<fC, fD>>, <<>>), FC("exclude", <<fB>>, <<>>), FC("include", <<fA>>, <<>>),
                FC("exclude", <<fE, fC>>, <<>>), FC("applied", <<>>, t_ren),
                [FC("state", <<>>, <<>>) EXCEPT !.k = t_k, !.v = t_v], [FC("state", <<>>, <<>>) EXCEPT !.k = t_k, !.v = t_w],
-               [FC("state", <<>>, <<>>) EXCEPT !.k = <<122>>, !.v = <<>>]>>
+               [FC("state", <<>>, <<>>) EXCEPT !.k = <<122>>, !.v = <<>>],
+               [FC("state", <<>>, <<>>) EXCEPT !.k = <<110>>, !.op = "lte", !.num = TRUE, !.n = 5],
+               [FC("state", <<>>, <<>>) EXCEPT !.k = <<110>>, !.op = "lte", !.v = <<53>>]>>
 
 Exprs1 == {EId(1), ENot(EId(1))}
 Exprs2 == {EBin("and", EId(1), EId(2)), EBin("or", EId(1), EId(2)), EBin("and", EId(1), ENot(EId(2))),
            ENot(EBin("or", EId(1), EId(2))), EBin("or", ENot(EId(1)), EId(2))}
 Grp(conds, link, expr, neg) == [conds |-> conds, link |-> link, expr |-> expr, neg |-> neg]
+Pairs(pool, picks) ==
+    {Grp(<<pool[i], pool[j]>>, l, EId(1), n) : i \in picks, j \in picks, l \in {"and", "or"}, n \in BOOLEAN}
+    \cup {Grp(<<pool[i], pool[j]>>, "expr", e, FALSE) : i \in picks, j \in picks, e \in Exprs2}
 Groups(pool, picks) ==
     {Grp(<<>>, l, EId(1), n) : l \in {"default", "and", "or"}, n \in BOOLEAN}
     \cup {Grp(<<pool[i]>>, l, EId(1), n) : i \in picks, l \in {"default", "or"}, n \in BOOLEAN}
     \cup {Grp(<<pool[i]>>, "expr", e, FALSE) : i \in picks, e \in Exprs1}
-    \cup {Grp(<<pool[i], pool[j]>>, l, EId(1), n) : i \in picks, j \in picks, l \in {"and", "or"}, n \in BOOLEAN}
-    \cup {Grp(<<pool[i], pool[j]>>, "expr", e, FALSE) : i \in picks, j \in picks, e \in Exprs2}
+    \* (quick: every single condition in every setting, a sample of the pairs)
+    \cup (IF Quick /\ Cardinality(Pairs(pool, picks)) > 4000 THEN RandomSubset(4000, Pairs(pool, picks)) ELSE Pairs(pool, picks))
 Empty == Grp(<<>>, "default", EId(1), FALSE)
 RuleGroups == Groups(RulePool, 1..Len(RulePool))
 ItemGroups == Groups(ItemPool, 1..Len(ItemPool))
